@@ -30,7 +30,8 @@ CLAIMS = {
              'and caches of the base class, and the one-based index discipline of the MKL backend (which cannot be executed in this sandbox). Necessary conditions of "faithful to the data / '
              'ambiguous input rejected"; numerical agreement of products, transposes and sub-matrices is NOT decided. Also decided: NumpyMatrix.__matmul__ contracts the first operand axis for operands of any dimension, and COO row compression computes index differences in a signed type so that unsorted or out-of-range rows are rejected for every integer dtype; assemble_block_csr establishes the per-block obligations (row pointers from 0 to len(values), column indices inside the block) before it re-bases and splices the blocks.'
              ' Also decided (round 3): compress_indices (CSR row pointers) never returns on counts/end points of the row indices alone (R15.11).'
-             ' Also decided: every name loaded in the matrix package and numeric.py resolves (R15.12; matrix.fromsparse is a known finding).',
+             ' Also decided: every name loaded in the matrix package and numeric.py resolves (R15.12; matrix.fromsparse is a known finding).'
+             ' Also decided (round 5): every column-index array handed to the gateway by assemble_block_csr is re-based by the running offset on every route (R15.9); the T members contain no conjugation (R15.13).',
         note='Trusts: CPython ast; the idiom table for guards (all(e), numpy.all(e), e.all(); shifted-slice and numpy.diff adjacent comparisons); role names of index arrays '
              '(colidx/indices/cols vs rowptr/indptr). Unclassifiable constructs in the anchor give ANALYSIS-ERROR.',
         design='DESIGN.md section 2, C15'),
@@ -51,7 +52,8 @@ CLAIMS = {
              'form a prefix-free byte encoding with the type tag first; each type branch of nutils_hash feeds the components that distinguish values of that type; hand-written solver hashes cover all '
              'constructor state with unique tags; Immutable/Singleton/DataClass/arraydata canonicalise and intern through one key; the disk-cache key and generated constant names use the full hash. '
              'An encoding that is not injective makes two values share a hash for certain, so each clause is necessary; SHA-1 collision resistance and user-defined hashes are NOT decided.'
-             ' Also decided: every name loaded in types.py resolves (R17.9).',
+             ' Also decided: every name loaded in types.py resolves (R17.9).'
+             ' Also decided (round 5, R17.10): nutils_hash and the functions it delegates to are not wrapped in an equality-keyed memo; the dataclass branch feeds every field; iterations that draw fresh loop ids run over sorted sets.',
         note='Trusts: CPython ast; the feed typing table (digest = nutils_hash()/.digest(), delimited = literal NUL terminator, raw, varnum); SHA-1 as a random oracle for fixed-length digests. '
              'Known findings F6, F9a, F9b are listed in known_findings.json.',
         design='DESIGN.md section 2, C17'),
@@ -63,7 +65,8 @@ CLAIMS = {
              'entry name depends on module, qualname, version and every canonical argument; recursion bookkeeping (monotone exhausted flag, trimmed history, resume index, stop marker, layout agreement). '
              'This is the shape that crash tolerance and mutual exclusion need for every history; what the OS guarantees for flock and partial writes and equality of unpickled values are NOT decided. Also decided: every iteration-method class that can be passed to the memoised System.solve is hashable and its hash covers its constructor state.'
              ' Also decided (round 3): the end of a recursion is StopIteration, never a value it may yield (R18.9); class keywords (version) are handed on by the metaclass (R18.10); handles opened outside a with statement take part in the lock typestate.'
-             ' Also decided: every name loaded in cache.py resolves (R18.11).',
+             ' Also decided: every name loaded in cache.py resolves (R18.11).'
+             ' Also decided (round 5): a computed entry records into a recorder created for that entry (R18.5 fresh-recorder); the type branches of nutils_hash through which every argument enters the key feed what distinguishes their values (R18.4 = R17.5).',
         note='Trusts: CPython ast; that a truncated pickle raises EOFError or UnpicklingError (CPython behaviour); flock semantics.',
         design='DESIGN.md section 2, C18'),
     'C20': dict(
@@ -73,7 +76,8 @@ CLAIMS = {
              'division/formatting and construction are dimension-checked and the unchecked parser is not reachable otherwise, that the Dimension algebra adds/subtracts/scales exponents with canonical interning, '
              'that unit strings are parsed with the documented precedence and name resolution, and that both prefix tables equal the SI prefixes. Soundness of the dimension of every supported composition '
              'follows from these per-operation rules; numerical conversion factors and the format round trip are NOT decided.'
-             ' Also decided: every name loaded in SI.py and unit.py resolves (R20.10).',
+             ' Also decided: every name loaded in SI.py and unit.py resolves (R20.10).'
+             ' Also decided (round 5, R20.11): Dimension.create validates a new base symbol with the tokenizer of dimension strings; unit._Units.parse uses an exponent only after its sign is settled.',
         note='Trusts: CPython ast; oracles/dimension_rules.json (classification of each operation by dimensional analysis; SI prefixes).',
         design='DESIGN.md section 2, C20'),
     'C16': dict(
@@ -84,7 +88,8 @@ CLAIMS = {
              'statement constructors are used elsewhere only at eight listed sites; shared allocation, lock registration and pre-fork lock creation are paired and ctxrange is emitted for outermost loops only; '
              'arrays crossing a parallel region are shared and every claimed index of _locate gets its slot assigned. These are necessary for exactly-once execution, mutual exclusion, visibility and failure '
              'propagation; numerical equality, real schedules and the OS primitives are NOT decided.'
-             ' Also decided: every name loaded in parallel.py resolves (R16.7).',
+             ' Also decided: every name loaded in parallel.py resolves (R16.7).'
+             ' Also decided (round 5): the iterations of a parallel.ctxrange loop are independent - no local bound in the loop body is read before it is bound in the same iteration (R16.8, shown on built-in examples on every run).',
         note='Trusts: CPython ast; os.fork/_exit/waitpid and multiprocessing.Lock semantics; completeness of _pyast Expression.variables (checked under C02/R02.4).',
         design='DESIGN.md section 2, C16'),
     'C19': dict(
@@ -178,7 +183,8 @@ CLAIMS = {
              'trimmed mosaics are numerical tables and are NOT decided. Also decided: a composite sample never hands its raw element index to a component accessor, and transformed points scale weights by the absolute determinant. TensorPoints enumerates coordinates, weights and triangulation with the same slow factor; getpoints changes the requested degree only under the bezier scheme test.'
              ' Also decided (round 3): take_elements and _offsets never return on counts alone (R09.8); a per-direction degree tuple is reduced to a total degree by its sum (R09.6).'
              ' Also decided: every name loaded in sample.py, points.py, pointsseq.py and element.py resolves (R09.9).'
-             ' Round 4: slice.indices components all used, _Zip.getindex reads the stored point numbers, composite scheme strings are split at the first * (interpreted) (R09.10).',
+             ' Round 4: slice.indices components all used, _Zip.getindex reads the stored point numbers, composite scheme strings are split at the first * (interpreted) (R09.10).'
+             ' Also decided (round 5, R09.11): Topology.locate refuses per-target weights together with skip_missing (or restricts them to the found points); subset members read the point mask through getindex. The index arithmetic of R09.1 is compared by denotation (sa/indexform.py), not by spelling.',
         note='Trusts: CPython ast; the member names of sample._Mul/_Add/_Integral as read today.',
         design='DESIGN.md section 2, C09'),
 }
